@@ -70,6 +70,8 @@ pub enum BatchOp {
 pub enum ProdOp {
     Add(DocSpec),
     DeleteKey(u64),
+    /// `IndexWriter::run` with a group of operations (contiguous opstamps)
+    Batch(Vec<BatchOp>),
 }
 
 #[derive(Clone, Debug, PartialEq, Serialize, Deserialize)]
